@@ -23,6 +23,12 @@
 (*                       run, even if a newer task of the document exists  *)
 (*   HoldVfsAcrossApply  FALSE = today (drop(vfs) before apply_vfs_change) *)
 (*   SnapshotInTask      FALSE = today (snapshot taken on the main loop)   *)
+(*   CancelledAnsweredOk FALSE = today (a cancelled query is answered with *)
+(*                       RequestCancelled); TRUE = seeded defect: it is    *)
+(*                       answered with a successful null                   *)
+(*   AnsFree             TRUE only for trace validation: the content class *)
+(*                       of an answer is bound from the log and judged by  *)
+(*                       the monitor instead of constraining the behaviour *)
 (*   MaxInFlight / PollWhileWaiting  ConcurrencyLayer admission; FALSE =   *)
 (*                       async-lsp 0.0.5: while waiting for a permit the   *)
 (*                       main loop does not poll finished request futures  *)
@@ -43,7 +49,7 @@ CONSTANTS Docs,          \* document names (strings)
           ReqKinds,      \* subset of {"plain", "conv"}: conv = handler with a second snap.vfs()
           QueryOutcomes, \* subset of {"ok", "err"}
           ReadWithLiveVfs, ConvertWithLiveVfs, CancelledDiagPublishesEmpty, RespawnAllDiags, PublishOnlyLatest,
-          HoldVfsAcrossApply, SnapshotInTask, PollWhileWaiting, PreFixF9, ThirdPartyFatal,
+          HoldVfsAcrossApply, SnapshotInTask, CancelledAnsweredOk, AnsFree, PollWhileWaiting, PreFixF9, ThirdPartyFatal,
           Gen,           \* "none" | "bfs" | "sim"   (script generation, seq mode)
           ScriptLen
 
@@ -120,7 +126,11 @@ MaxDiags == 2 * (MaxEdits + Cardinality(Docs)) + 2
 TaskIdsAll == (1..MaxReqs) \cup {0 - k : k \in 1..MaxDiags}
 Snaps == {t \in DOMAIN tasks : tasks[t].snap}
 Task(kind, d, rk) == [kind |-> kind, d |-> d, rk |-> rk, st |-> "spawned", snap |-> FALSE, aborted |-> FALSE,
-                      issued |-> 0, snapVer |-> 0, spawnVfs |-> 0, readVer |-> 0, convVer |-> 0, res |-> "none"]
+                      issued |-> 0, snapVer |-> 0, spawnVfs |-> 0, readVer |-> 0, convVer |-> 0, res |-> "none",
+                      snapText |-> <<>>, ans |-> <<>>]
+\* The abstract answer: a function of the request kind and of the text in the snapshot the query ran on.
+Ans(rk, text) == <<rk>> \o text
+Wrong(rk) == <<rk, "NOT-THE-ANSWER">>
 Upd(f, k, v) == [x \in DOMAIN f \cup {k} |-> IF x = k THEN v ELSE f[x]]
 Del(f, k) == [x \in DOMAIN f \ {k} |-> f[x]]
 
@@ -184,7 +194,8 @@ M_SpawnTask ==
   /\ alive /\ mpc = "spawn"
   /\ LET t == cur.id
          r == [Task("req", cur.d, cur.rk) EXCEPT !.snap = ~SnapshotInTask, !.issued = dbVer[cur.d],
-                                                 !.snapVer = dbVer[cur.d], !.spawnVfs = vfsVer[cur.d]]
+                                                 !.snapVer = dbVer[cur.d], !.spawnVfs = vfsVer[cur.d],
+                                                 !.snapText = dbText[cur.d]]
      IN /\ tasks' = Upd(tasks, t, r)
         /\ inflight' = inflight \cup {t}
   /\ mpc' = "idle" /\ cur' = Nil
@@ -383,7 +394,8 @@ T_Start(t) ==
   /\ t \in DOMAIN tasks /\ tasks[t].st = "spawned" /\ ~tasks[t].aborted
   /\ tasks' = [tasks EXCEPT ![t].st = "started",
                             ![t].snap = TRUE,
-                            ![t].snapVer = IF SnapshotInTask THEN dbVer[tasks[t].d] ELSE @]
+                            ![t].snapVer = IF SnapshotInTask THEN dbVer[tasks[t].d] ELSE @,
+                            ![t].snapText = IF SnapshotInTask THEN dbText[tasks[t].d] ELSE @]
   /\ (SnapshotInTask => mpc \notin {"set"})      \* snapshot() needs the storage read lock
   /\ UNCHANGED <<TU, TQ>>
 
@@ -405,23 +417,31 @@ T_ReadVfs(t) ==
 \* every query entry on a snapshot checks the pending-write flag and unwinds with Cancelled
 T_QueryStep(t) ==
   /\ t \in DOMAIN tasks /\ tasks[t].st = "query" /\ cancelFlag
-  /\ tasks' = [tasks EXCEPT ![t].st = "ret", ![t].res = "cancelled", ![t].convVer = tasks[t].readVer]
+  /\ tasks' = IF CancelledAnsweredOk /\ tasks[t].kind = "req"
+              THEN [tasks EXCEPT ![t].st = "ret", ![t].res = "ok", ![t].convVer = tasks[t].readVer,
+                                 ![t].ans = <<tasks[t].rk, "NULL">>]
+              ELSE [tasks EXCEPT ![t].st = "ret", ![t].res = "cancelled", ![t].convVer = tasks[t].readVer]
   /\ UNCHANGED <<TU, TQ>>
 
 \* the query ran to completion (it may not have noticed a flag raised meanwhile) (hook: QueryDone)
 T_QueryDone(t) ==
   /\ t \in DOMAIN tasks /\ tasks[t].st = "query"
+  \* the answer is Ans(kind, snapshot text) - unless the position was converted with another version's line table
   /\ \E r \in QueryOutcomes :
+     \E a \in (IF r # "ok" THEN {<<>>}
+               ELSE {Ans(tasks[t].rk, tasks[t].snapText)}
+                    \cup (IF AnsFree \/ tasks[t].readVer # tasks[t].snapVer THEN {Wrong(tasks[t].rk)} ELSE {})) :
        tasks' = IF IsConv(tasks[t].rk) /\ r = "ok"
-                THEN [tasks EXCEPT ![t].st = "qdone", ![t].res = r]
-                ELSE [tasks EXCEPT ![t].st = "ret", ![t].res = r, ![t].convVer = tasks[t].readVer]
+                THEN [tasks EXCEPT ![t].st = "qdone", ![t].res = r, ![t].ans = a]
+                ELSE [tasks EXCEPT ![t].st = "ret", ![t].res = r, ![t].convVer = tasks[t].readVer, ![t].ans = a]
   /\ UNCHANGED <<TU, TQ>>
 
 \* goto_definition / references / rename: `let vfs = snap.vfs();` AFTER the query, ranges converted with it
 T_ConvertWithVfs(t) ==
   /\ t \in DOMAIN tasks /\ tasks[t].st = "qdone" /\ ~vfsW
-  /\ tasks' = [tasks EXCEPT ![t].st = "ret",
-                            ![t].convVer = IF ConvertWithLiveVfs THEN vfsVer[tasks[t].d] ELSE tasks[t].readVer]
+  /\ LET cv == IF ConvertWithLiveVfs THEN vfsVer[tasks[t].d] ELSE tasks[t].readVer IN
+     \E a \in {tasks[t].ans} \cup (IF ~AnsFree /\ cv # tasks[t].readVer THEN {Wrong(tasks[t].rk)} ELSE {}) :
+       tasks' = [tasks EXCEPT ![t].st = "ret", ![t].convVer = cv, ![t].ans = a]
   /\ UNCHANGED <<TU, TQ>>
 
 \* request task: the closure returns, the snapshot is dropped (hook: TaskReturn)
@@ -581,6 +601,10 @@ Mixed(r) == r.res = "ok" /\ ~(r.snapVer = r.readVer /\ r.readVer = r.convVer)
 NoMixture == \A t \in DOMAIN tasks : (tasks[t].kind = "req" /\ tasks[t].st = "returned") => ~Mixed(tasks[t])
 \* ... namely the version the request was issued against
 IssuedVersion == \A t \in DOMAIN tasks : (tasks[t].kind = "req" /\ tasks[t].st = "returned" /\ tasks[t].res = "ok") => tasks[t].snapVer = tasks[t].issued
+\* an ok answer whose query and conversions saw one version IS the answer for the snapshot taken when it was spawned
+RightAnswer(r) == r.ans = Ans(r.rk, r.snapText)
+AnswerContent == \A t \in DOMAIN tasks :
+                   (tasks[t].kind = "req" /\ tasks[t].st = "returned" /\ tasks[t].res = "ok" /\ ~Mixed(tasks[t])) => RightAnswer(tasks[t])
 \* once everything is quiet the server's text is the client's and the last published diagnostics are those of it
 Converged(d) == /\ vfsText[d] = StripCR(cText[d]) /\ dbText[d] = vfsText[d]
                 /\ published[d].ver = dbVer[d] /\ published[d].c = "ok"
